@@ -424,6 +424,32 @@ def scenario_prefix(rng):
     r = rng.random()
     leafk = rng.choice(["port", "cable", "instance"])
     bad = rng.choice(["1x", "a-b", "&"])
+    if rng.random() < 0.18:
+        # a name (or identifier) GIVEN UP by one child - un-named, renamed or removed - and TAKEN OVER by a sibling; the
+        # first child then comes back under another name: the sibling's entry must survive, a third claimant is refused
+        k = rng.choice(["name", "name", "ident"])
+        pool = NAMES if k == "name" else ["a", "Ab", "b_", "aB"]
+        nm = rng.choice(pool)
+        nm2 = rng.choice([x for x in pool if x.lower() != nm.lower()])
+        D, A, B, C = ["definition", 0], [leafk, 0], [leafk, 1], [leafk, 2]
+        ops = ([{"t": "setDefault", "pol": "EDIF"}] if (k == "ident" or rng.random() < 0.3) else []) + [{"t": "create", "e": D}]
+        mk = lambda c, v: {"t": "createIn", "p": D, "c": c, "name": v if k == "name" else None, "ident": v if k == "ident" else None}
+        ops.append(mk(A, nm))
+        how = rng.choice(["del", "pop", "detach", "rename"] + (["prop"] if k == "name" else []))
+        if how == "detach":
+            ops.append({"t": "detach", "p": D, "c": A})
+        elif how == "rename":
+            ops.append({"t": "setKey", "e": A, "k": k, "v": rng.choice([x for x in pool if x.lower() not in (nm.lower(), nm2.lower())] or [nm2])})
+        elif how == "prop":
+            ops.append({"t": "delNameProp", "e": A, "assign_none": rng.random() < 0.5})
+        else:
+            ops.append({"t": "delKey" if how == "del" else "popKey", "e": A, "k": k})
+        ops.append(mk(B, nm))
+        ops.append({"t": "setKey", "e": A, "k": k, "v": nm2, "via_prop": rng.random() < 0.5} if k == "name" else {"t": "setKey", "e": A, "k": k, "v": nm2})
+        if how == "detach":
+            ops.append({"t": "attach", "p": D, "c": A})
+        ops.append(mk(C, nm))
+        return ops
     if rng.random() < 0.2:
         # a table REBUILT from the children (policy switched forth and back, or first use of a clone) must hold every
         # name the incrementally kept one held - then a second sibling of that name
